@@ -204,7 +204,7 @@ def oracle(chk, lines, outs, focus=None):
             flat = Flat()
             last = {}
             continue
-        if op in ("iface", "decl", "obj", "newreg", "rbases", "reg", "unreg", "sub", "unsub", "clone", "rebuild"):
+        if op in ("iface", "decl", "obj", "newreg", "rbases", "reg", "unreg", "sub", "unsub", "clone", "rebuild", "relookup"):
             if out != "ok":
                 bad.append((i, "%s failed: %s" % (op, out)))
             flat.apply(f)
@@ -690,7 +690,7 @@ class Gen:
                         continue            # dropping base links can destroy C3 consistency of a descendant too
                 line = "rbases|%d|%s" % (r, " ".join(map(str, bs)))
             elif k == "rebuild":
-                line = "rebuild|%d" % r
+                line = ("relookup|%d" if rnd.random() < 0.45 else "rebuild|%d") % r
             elif k == "clone":
                 if nclones >= 2:
                     continue
